@@ -196,9 +196,52 @@ def grd9(P, R, L):
                     "the file on which the lock was taken is the one stored in the FileLock", "")
 
 
+LOCK_PATH = "file_names::FileNameHandler::get_lock_file_path"
+
+
+def own6b(P, R, L):
+    R.clause("OWN-6b", "the LOCK path is only ever handed to lock_file; it is removed only by destroy_database, after every other removal "
+             "(flock is tied to the inode: unlinking the name while the database may be opened lets a second owner in)")
+    from ..rules import forward_aliases
+    sites = [c for c in P.callers_of(LOCK_PATH) if not c.body.is_cleanup(c.bb)]
+    R.floor("OWN-6b", "get_lock_file_path call sites", len(sites), 2)
+    for cs in sites:
+        b = cs.body
+        R.analysed(b)
+        A = forward_aliases(b, cs.dest["l"])
+        for _ in range(3):
+            for c in b.calls():
+                if c.args and c.args[0]["k"] in ("copy", "move") and c.args[0]["pl"]["l"] in A and \
+                        c.name in ("<std::path::PathBuf as std::ops::Deref>::deref", "std::path::PathBuf::as_path", "std::convert::AsRef::as_ref"):
+                    A |= forward_aliases(b, c.dest["l"])
+        bad, uses = [], []
+        for c in b.calls():
+            if b.is_cleanup(c.bb):
+                continue
+            for i, a in enumerate(c.args):
+                if a["k"] in ("copy", "move") and a["pl"]["l"] in A:
+                    dn = c.declared_name or ""
+                    uses.append(dn.rsplit("::", 1)[-1])
+                    if dn in (FS + "create_file", FS + "rename", FS + "remove_dir", FS + "remove_dir_all"):
+                        bad.append("%s at %s" % (dn, c.where()))
+                    if dn == FS + "remove_file":
+                        if b.path != DESTROY:
+                            bad.append("%s at %s (outside destroy_database)" % (dn, c.where()))
+                        else:
+                            later = [x for x in b.calls() if not b.is_cleanup(x.bb) and x is not c and x.bb in b.reachable(c.bb) and x.bb != c.bb and
+                                     (x.declared_name or "") in (FS + "remove_file", FS + "remove_dir_all") ]
+                            if later:
+                                bad.append("LOCK is unlinked at %s before other removals at %s" % (c.where(), [x.line for x in later]))
+        R.check("OWN-6b", "%s|lock-path-use" % b.path, not bad, cs.where(), "the LOCK name is never unlinked or replaced while the database can be opened",
+                "; ".join(bad) or "uses: %s" % sorted(set(uses)))
+
+
 def run(P, R, L):
     ord15(P, R, L)
     own6(P, R, L)
+    own6b(P, R, L)
+    from .c09 import pair4
+    pair4(P, R, L)
     grd9(P, R, L)
     # Drop: wait loop before take (shared with C09 ORD-12)
     from .c09 import ord12
